@@ -446,10 +446,6 @@ namespace nmtools::array
                 binary_case = BinaryCase::BROADCASTED_2D;
             }
 
-            #ifdef NMTOOLS_VERIF
-            if (binary_case == BinaryCase::INVALID)
-                NMTOOLS_VERIF_EVAL_SHAPE_MISMATCH(21);
-            #endif
             if (binary_case == BinaryCase::INVALID) {
                 // operands that are neither of the same shape nor both 2-d (e.g. (r,c) with (c), 3-d with 2-d):
                 // no simd kernel handles them; returning false left the output unwritten, use the scalar evaluator
